@@ -213,7 +213,7 @@ def unwrap_kind_guarded(crate, body, bb, t):
         if st["k"] != "switch" or sb == bb or not body.dominates(sb, bb):
             continue
         for tgt, fl in ef.facts_for_switch(sb).items():
-            if tgt == sb or not body.dominates(tgt, bb) or len(body.pred[tgt]) != 1:
+            if tgt == sb or not body.dominates(tgt, bb) or set(body.pred[tgt]) != {sb}:       # (merged arms `A | B =>` are two edges of sb)
                 continue
             for f in fl:
                 if f[0] == "variant" and f[1].endswith("ValueKind") and f[4]:
